@@ -1,0 +1,10 @@
+//go:build !verif
+// +build !verif
+
+package sarama
+
+// Verification hooks compiled out (see verif_hooks_on.go).
+
+func verifGate(site, topic string, n int32) {}
+
+func verifPickBroker(brokers map[int32]*Broker) *Broker { return nil }
